@@ -26,6 +26,7 @@ EXPLANATION = (
     "to signal and noise (last axis, full first axis for two polarisations); copy(n) is self[:n] with n defaulting to len(); len() is "
     "shape[1] or size per ndim class. "
     "Not decided: dtype promotion results, numpy broadcasting, bit-for-bit values.")
+EXPLANATION += (" Added after the audit wave: C01.6 in the branch where only the other operand carries noise, the noise handed to the constructor takes the result's shape (it mentions the receiver's arrays or was broadcast to a shape that does), because the length guard admits a one-sample operand; C01.8 an index that is a numpy integer (an Integral that is not an int) takes the integer branch of optical_signal.__getitem__; C01.7 accepts either outcome for a one-sample RECEIVER against a longer operand (the statement does not settle it).")
 TRUSTED = ["numpy.array copies by default; basic slicing returns views; arithmetic allocates", "utils.str2array returns a fresh array", "CPython ast"]
 
 OPS = ["__add__", "__radd__", "__sub__", "__rsub__", "__mul__", "__rmul__"]
@@ -90,6 +91,10 @@ def total(obj: ObjV):
     return None, None
 
 
+def _mentions_self(v):
+    return "self." in repr(v)
+
+
 def rule_operators(ctx):
     pkg = ctx.pkg
     for cls in CLASSES:
@@ -125,6 +130,14 @@ def rule_operators(ctx):
                     continue
                 ctx.check("C01.5", tot == want, m, node, f"{case}: signal+noise = {tot!r}", f"equals {want!r}",
                           f"total field of the result is {tot!r}, expected {want!r}")
+                if sn == "none" and on == "notnone" and has_noise:
+                    # the other operand may be one sample long (the guard accepts it): the noise handed to the constructor must take the
+                    # result's shape, i.e. its value mentions the receiver's arrays or was broadcast to a shape that does
+                    nz = out.fields.get("noise")
+                    shaped = _mentions_self(nz) or any(v == nz and _mentions_self(shp) for v, shp in it.broadcasts)
+                    ctx.check("C01.6", shaped, m, node, f"{case}: noise of the result takes the result's shape", "noise mentions the receiver's arrays or is broadcast to a shape that does",
+                              f"the result's noise is {nz!r} as it stands in the other operand: a one-sample operand with noise (accepted by the length guard) gives a signal of "
+                              "the receiver's length with a one-sample noise, which the constructor rejects with ValueError instead of broadcasting"[:500])
                 ctx.check("C01.6", has_noise == (sn == "notnone" or on == "notnone"), m, node, f"{case}: result has noise = {has_noise}", "noise iff an operand has noise",
                           "result carries noise although no operand does" if has_noise else "an operand's noise component is dropped")
             # scalar operand: wrapped by the constructor, same class
@@ -169,6 +182,13 @@ def rule_length_guard(ctx):
                 outs = it.run(m)
                 rets = [o for o in outs if o.kind == "return"]
                 must_raise = la != lb and lb != 1
+                if must_raise and la == 1:
+                    # "length-1 operands broadcast" read for the receiver too: a one-sample receiver may be rejected (as today) or
+                    # broadcast - the statement does not settle which, so neither outcome is reported; any other exception is
+                    if not rets and (not outs or outs[-1].exc != "ValueError"):
+                        probs.append(f"lengths {la} and {lb} raise {outs[-1].exc if outs else None}, documented ValueError")
+                        where = outs[-1].node if outs else m.node
+                    continue
                 if must_raise:
                     if rets:
                         probs.append(f"lengths {la} and {lb} are not rejected")
@@ -358,12 +378,12 @@ def rule_slicing(ctx):
     for cls, npol in (("electrical_signal", None), ("optical_signal", 1), ("optical_signal", 2)):
         m = pkg.find_method("typing", cls, "__getitem__")
         for noise in ("none", "notnone"):
-            for kind in ("slice", "int"):
+            for kind in ("slice", "int", "numpy int"):
                 ass = {"self.noise": noise}
                 if npol is not None:
                     ass["self.n_pol"] = npol
                 pname = m.params[1]
-                ass[pname] = ("inst", "int") if kind == "int" else ("notinst", "int")
+                ass[pname] = ("inst", "int") if kind == "int" else ("inst", "numpy.integer") if kind == "numpy int" else ("inst", "slice")
                 it = Interp(pkg, self_class=cls, assumptions=ass)
                 outs = it.run(m)
                 rets = [o for o in outs if o.kind == "return"]
@@ -385,8 +405,10 @@ def rule_slicing(ctx):
                     full = items and isinstance(items[0], SliceV) and all(isinstance(x, Const) and x.v is None for x in (items[0].lo, items[0].hi, items[0].step))
                     if not (items and full and items[1] == S(pname)):
                         idx_ok, why = False, f"two-polarisation index {idx!r} is not [:, {pname}]: it must select samples on the last axis in both rows"
-                    elif kind == "int" and not (len(items) == 3):
-                        idx_ok, why = False, "an integer index must keep the sample axis (np.newaxis) for two polarisations"
+                    elif kind in ("int", "numpy int") and not (len(items) == 3):
+                        idx_ok, why = False, "an integer index must keep the sample axis (np.newaxis) for two polarisations" + (
+                            ": a numpy integer (np.int64(k), the result of np.argmax) is not a python int - x[np.int64(k)] hands the two polarisation samples "
+                            "to the constructor as one row, the result is a ONE-polarisation signal of two time samples" if kind == "numpy int" else "")
                 else:
                     if not (isinstance(idx, Form) and idx == S(pname)):
                         idx_ok, why = False, f"index {idx!r} is not the requested `{pname}`"
